@@ -423,7 +423,8 @@ class kLeastAbsErrors(pathmodel.AbstractPathModelDAG):
         non_empty_paths = []
         non_empty_weights = []
         for path, weight in zip(solution["paths"], solution["weights"]):
-            if len(path) > 1:
+            # For node-weighted graphs, a path made up of a single node is not empty
+            if len(path) > 1 or (len(path) == 1 and self.flow_attr_origin == "node"):
                 non_empty_paths.append(path)
                 non_empty_weights.append(weight)
 
